@@ -175,10 +175,10 @@ class MetaUnionRef(type):
         return info
 
     def _to_buffer(cls, buffer, offset, value, info=None):
-        if isinstance(value, cls):  # binary copy
-            buffer.update_from_xbuffer(
-                offset, value._buffer, value._offset, value._size
-            )
+        if isinstance(value, cls):
+            # the stored offset is relative to the source slot: no binary
+            # copy, refer to (or duplicate) the object the source points to
+            cls._to_buffer(buffer, offset, value.get())
         else:
             if value is None:
                 xobj = None
